@@ -66,6 +66,30 @@ CLAIMED = {
          "(3b6a6ac, d85ab32, eae5248) and one known finding (ROOT_DEPTH roots can be insufficient)",
          "partial: the theorems do not cover the reset path; known finding C13-roots-insufficient is tolerated, identified by its root cause (first divergence = round of an event above the frame)",
          "Coq lemmas on frames + reset-vs-full-history differential oracle on real cores"),
+ "C10": ("Proved in Coq for every operation sequence of a node with an application (insertions of arbitrary events carrying arbitrary join/leave "
+         "requests, accepted or refused, ProcessSigPool, commits): the PeerSetCache table and core.validators equal the replay of the node's own delivered "
+         "blocks (accepted receipts in order, new set at round-received+6, 'round already recorded' error branch included); nothing but commit writes them; "
+         "the table is sorted with first key 0, Get returns the entry with the greatest round <= r (the 'below all keys' branch is dead); a commit of "
+         "round-received rr changes no round below rr+6, at table level and along every continuation of every history; every delivered block carries the "
+         "peer set its frame's table snapshot gives for its round-received. Under the named hypothesis that round-received increases along the delivered "
+         "blocks (C02, checked by the oracle on every history) the set of round r is genesis modified in block order by exactly the accepted receipts of "
+         "the blocks with rr+6 <= r. Tied to the code by per-action comparison of the table (observable ps) of real cores in dynamic-membership gossip "
+         "histories and by an independent replay oracle on the implementation (table, lookup, PeersHash)",
+         "15 theorems, no axioms; membership gates proved per call (witness, strongly-see), not yet as invariants of the memo tables (window property, "
+         "DESIGN stage D); fast-forwarded nodes start from the frame's table (C13)",
+         "Coq invariant proof over operation lists (commit footprint + generic lifting) + dynamic-membership gossip correspondence + replay oracle"),
+ "C09": ("Proved in Coq for every operation sequence and every signature payload (other bodies, non-members, removed / not yet effective validators, "
+         "duplicates, unknown or future indexes, encodings that verify against nothing): a signature is recorded on a block only if it verifies against the "
+         "node's own body of that block and its signer is in the peer set the table gives for the block's round-received when it is recorded (with "
+         "round-received increasing: in the set of the final table); signers of a block are pairwise distinct; every pool entry and recorded signature was "
+         "carried by an inserted event and, given the wire layer's attribution, is keyed by that event's creator; the anchor block is stored and has more "
+         "than TrustCount signatures of its round's set, i.e. distinct member signatures from more than a third of it (any signature for one validator); the "
+         "anchor index never decreases; the node's own signatures exist only for delivered blocks, over the delivered body. Tied to the code by gossip "
+         "histories with an adversarial signature stream (a harness-driven validator whose events carry bad payloads) compared with the model after every "
+         "action, and by an oracle that re-verifies every stored signature with keys.Verify and re-counts the anchor's signatures",
+         "12 theorems, no axioms; bs_over (which body a signature verifies against) is supplied by the harness from keys.Verify; fast-forward blocks (C12/C14) "
+         "and resets are outside hrun",
+         "Coq invariant proof over operation lists + adversarial-signature gossip correspondence + implementation oracle"),
 }
 NOT_YET = "check not built yet in this commit (work in progress; to be claimed)"
 NA = {}
